@@ -824,6 +824,44 @@ func fieldKey(v ssa.Value) string {
 	return name + "." + st.Field(idx).Name()
 }
 
+// unspill undoes go/ssa's spilling of results in functions that have defers:
+// `*t0 = v; rundefers; t7 = *t0; return t7` — the load of a result local is
+// replaced by the value last stored to it in the same block. (A deferred closure
+// that assigns a named result could change it; such functions keep the load.)
+func unspill(v ssa.Value) ssa.Value {
+	u, ok := v.(*ssa.UnOp)
+	if !ok || u.Op != token.MUL {
+		return v
+	}
+	a, ok := u.X.(*ssa.Alloc)
+	if !ok || a.Heap {
+		return v
+	}
+	// the alloc must only be stored to and loaded (not captured / address-taken)
+	if refs := a.Referrers(); refs != nil {
+		for _, r := range *refs {
+			switch r := r.(type) {
+			case *ssa.Store:
+				if r.Addr != a {
+					return v
+				}
+			case *ssa.UnOp:
+			case *ssa.DebugRef:
+			default:
+				return v
+			}
+		}
+	}
+	b := u.Block()
+	idx := instrIndex(u)
+	for k := idx - 1; k >= 0; k-- {
+		if st, ok := b.Instrs[k].(*ssa.Store); ok && st.Addr == a {
+			return st.Val
+		}
+	}
+	return v
+}
+
 // returnsOf lists the Return instructions of fn.
 func returnsOf(fn *ssa.Function) []*ssa.Return {
 	var out []*ssa.Return
@@ -874,7 +912,7 @@ func returnCases(fn *ssa.Function, idx int) []RetCase {
 			vals[idx] = v
 			out = append(out, RetCase{Ret: ret, Vals: vals, Facts: facts, Site: ret.Pos()})
 		}
-		expand(ret.Results[idx], base, 0, map[*ssa.Phi]bool{})
+		expand(unspill(ret.Results[idx]), base, 0, map[*ssa.Phi]bool{})
 	}
 	return out
 }
